@@ -236,4 +236,3 @@ func c13BFS(r *Run, strs []string, nkeys int, E []string, t uint32) {
 	}
 	bfs.Explore(r)
 }
-
